@@ -36,7 +36,7 @@ func main() {
 		SpinIsViolation: true,
 		MinNonTrivial:   20,
 		RaceIsViolation: true,
-		CaseTimeout:     60 * time.Second,
+		CaseTimeout:     150 * time.Second,
 	})
 }
 
